@@ -9,6 +9,7 @@ mod c13;
 mod c15dhcp;
 mod c15gen;
 mod c16;
+mod c19;
 
 use vkit::report::{load_replay, parse_args, Report};
 
@@ -47,6 +48,7 @@ const CHECKS: &[(&str, &str, RunFn, ReplayFn)] = &[
     ("C14", "exploration", c14_run, c14_replay),
     ("C15", "model_checking", c15_run, c15_replay),
     ("C16", "model_checking", c16::run, c16::replay),
+    ("C19", "model_checking", c19::run, c19::replay),
 ];
 
 fn main() {
